@@ -134,6 +134,17 @@ def gen_case(rng):
                 ins.append({"function": "subtotal", "args": rng.sample(ids, rng.randint(1, len(ids))),
                             "anchor": rng.choice(["top", "bottom"] + ids), "name": "S%d" % n, "id": n + 1})
             dims.append({"insertions": ins})
+        # view-level insertions on the variable as well: same subtotals in ANOTHER order (and one extra), so an id
+        # sits at different positions in the view list and in the effective (transform) list
+        if rng.random() < 0.6:
+            for vi, v in enumerate(vars_):
+                vl = copy.deepcopy(dims[vi]["insertions"])
+                rng.shuffle(vl)
+                if rng.random() < 0.5:
+                    vl.insert(0, {"function": "subtotal", "args": [sc.valid_ids(v)[0]], "anchor": "top", "name": "V", "id": 9})
+                d = v.to_json()
+                d["view_insertions"] = vl
+                case["vars"][vi] = d
         which = rng.randrange(2)
         dims[which]["order"] = {"type": "opposing_insertion", "insertion_id": rng.choice([1, 2]),
                                 "measure": rng.choice(["count_weighted", "table_percent", "col_percent", "row_percent",
